@@ -23,8 +23,14 @@ func Harness_C20_ExportUntidy() {
 		label = "export:sequence-of-nothing"
 		t.Properties["l"] = &syslwrapper.Type{Type: "list", Items: []*syslwrapper.Type{nil}}
 	}
+	// the application may also have endpoints that are not REST operations: a subscription
+	// ("Pub -> Evt"), a plain endpoint whose name has blanks, a one-word endpoint
+	epName := []string{"GET /x", "Pub -> Evt", "do something", "e", "PATCH /x"}[nd.IntRange("endpoint-name", 0, 4)]
+	if epName != "GET /x" {
+		label = "export:endpoint-that-is-not-a-rest-operation"
+	}
 	app := &syslwrapper.App{Name: "App", Attributes: map[string]string{}, Types: map[string]*syslwrapper.Type{"T": t},
-		Endpoints: map[string]*syslwrapper.Endpoint{"e": {Path: "GET /x", Params: map[string]*syslwrapper.Parameter{},
+		Endpoints: map[string]*syslwrapper.Endpoint{"e": {Path: epName, Params: map[string]*syslwrapper.Parameter{},
 			Response: map[string]*syslwrapper.Parameter{"ok": {Name: "ok"}}}}}
 	ex := MakeOpenAPI3Exporter(map[string]*syslwrapper.App{"App": app}, nil)
 	failed, _ := nd.Recovered(func() { ex.GenerateOpenAPI3(app) })
